@@ -78,6 +78,8 @@ func (c03) Cases(tier string, seed uint64) []fw.Case {
 	}
 	cases = append(cases, genCases(tier, seed)...)
 	cases = append(cases, flowCases(tier, seed)...)
+	cases = append(cases, ginitCases(tier, seed)...)
+	cases = append(cases, memCases(tier, seed)...)
 	cases = append(cases, corpusCases()...)
 	return cases
 }
